@@ -176,7 +176,7 @@ class OptRunner:
         self.nsteps = 0
         self.stats = {"refresh_steps": 0, "post_refresh_nonrefresh": 0, "mask_changes": 0, "all_absent": 0, "blocks": 0,
                       "nonidentity_refresh": 0, "stale_after_nonidentity": 0, "qr_steps": 0, "equal_shape_partial_mask": 0,
-                      "never_updated": 0}
+                      "never_updated": 0, "injected_qr_faults": 0, "kept_previous_after_fault": 0}
         self._ever = None
         self._had_refresh = [False] * len(self.groups)
         self._prev_mask: list[bool] | None = None
@@ -367,10 +367,35 @@ class OptRunner:
             self.dead = True
             self.out.classes.append("diverged_history")
             return fails
+        # optional fault injection (C03): the k-th torch.linalg.qr call of this step raises, i.e. one orthogonal-iteration refresh fails part-way;
+        # the optimizer documents that it then keeps the previous eigenvectors of that factor and continues (up to the configured tolerance)
+        self._fault_fired = False
+        fault_k = s.get("qr_fault")
+        real_qr = torch.linalg.qr
+        if fault_k:
+            calls = [0]
+
+            def faulty_qr(*a: Any, **k: Any) -> Any:
+                calls[0] += 1
+                if calls[0] == fault_k:
+                    self._fault_fired = True
+                    raise torch.linalg.LinAlgError("vf: injected failure of torch.linalg.qr")
+                return real_qr(*a, **k)
+
+            torch.linalg.qr = faulty_qr
         try:
-            self.opt.step()
+            try:
+                self.opt.step()
+            finally:
+                torch.linalg.qr = real_qr
+                if self._fault_fired:
+                    self.stats["injected_qr_faults"] += 1
         except Exception as e:  # noqa: BLE001
             self.dead = True
+            if self._fault_fired and isinstance(e, ValueError) and "exceeded the allowed tolerance" in str(e) \
+                    and self.stats["injected_qr_faults"] > min(g_["precond"].get("tol", 3) for g_ in self.hp):
+                self.out.classes.append("failure_tolerance_exceeded_after_injected_faults")
+                return fails
             if self._is_solver_giving_up(e):
                 self.out.classes.append("iterative_solver_gave_up")
                 return fails
@@ -522,6 +547,12 @@ class OptRunner:
             for j in range(len(pdims)):
                 if len(post.eigvec) <= j or len(pre.eigvec) <= j:
                     break
+                if refresh and getattr(self, "_fault_fired", False) and bool(pre.eigvec[j].any()) and rm.bitwise_equal(post.eigvec[j], pre.eigvec[j]):
+                    # an injected QR failure fired during this step: a factor whose stored basis is bitwise the previous one is the documented
+                    # "using previous factor matrix eigenvectors"; anything else (in particular a half-updated basis) goes through check_basis
+                    self.out.classes.append("kept_previous_basis_after_injected_failure")
+                    self.stats["kept_previous_after_fault"] += 1
+                    continue
                 if refresh:
                     expect_id = pre.diag[j] and _is_diag(post.factor[j])
                     cs, cl = rm.check_basis("basis", post.factor[j], pre.eigvec[j], post.eigvec[j], hp["precond"], pd, fd, expect_id)
